@@ -129,9 +129,10 @@ def reader_arms(ctx: Any) -> Dict[int, Tuple[str, List[Tuple[str, str]]]]:
         types: List[int] = []
         if isinstance(t, ast.Compare) and len(t.ops) == 1:
             if isinstance(t.ops[0], ast.Eq):
-                okc, v = prog.try_fold(m, t.comparators[0])
-                if okc:
-                    types = [v]
+                for side in (t.comparators[0], t.left):
+                    okc, v = prog.try_fold(m, side)
+                    if okc and not (isinstance(side, ast.Name) and side.id in f.params):
+                        types = [v]
             elif isinstance(t.ops[0], ast.In):
                 okc, v = prog.try_fold(m, t.comparators[0])
                 if okc:
@@ -392,7 +393,17 @@ def label(ctx: Any) -> List[Ob]:
     dec = prog.func(INC + '._decode_labels_at_offset')
     off_p = dec.params[1]
     len_vars = [st.targets[0].id for st in walk_local_ordered(dec.node) if isinstance(st, ast.Assign) and isinstance(st.targets[0], ast.Name) and isinstance(st.value, ast.Subscript) and norm(st.value.slice) == off_p]
-    consts = sorted({prog.try_fold(dec.module, c.comparators[0])[1] for c in walk_local_ordered(dec.node) if isinstance(c, ast.Compare) and isinstance(c.ops[0], ast.Lt) and norm(c.left) in len_vars and prog.try_fold(dec.module, c.comparators[0])[0]})
+    consts_set = set()
+    for c in walk_local_ordered(dec.node):
+        if isinstance(c, ast.Compare) and len(c.ops) == 1:
+            try:
+                pp, op_ = lf.comparison(prog, dec.module, c, lambda x: 'L' if isinstance(x, ast.Name) and x.id in len_vars else None)
+            except lf.NotLinear:
+                continue
+            # L - K < 0  <=>  length < K
+            if set(pp) - {()} == {(('L', 1),)} and pp[(('L', 1),)] > 0 and op_ == '<':
+                consts_set.add(int(-pp.get((), 0) / pp[(('L', 1),)]))
+    consts = sorted(consts_set)
     obs.append(ob(R, dec, f'length < {consts}', 'the decoder takes length < 0x40 as a label and length < 0xC0 (otherwise) as an unknown type', consts == [0x40, 0xC0]))
     link = [st for st in walk_local_ordered(dec.node) if isinstance(st, ast.Assign) and isinstance(st.targets[0], ast.Name) and any(isinstance(x, ast.BinOp) and isinstance(x.op, ast.BitAnd) for x in ast.walk(st.value)) and isinstance(st.value, ast.BinOp)]
     okl = False
